@@ -312,3 +312,49 @@ Example C07_range_nonvacuous :
   ura_value 29 0 bits_2pi (bits_2pi - 1) = 4618760255839404032 /\
   ura_value 29 0 bits_2pi 0 = 0.
 Proof. vm_compute. repeat split; congruence. Qed.
+
+(* ---------------------------------------------------------------- extension: DataField._calc_static_values *)
+
+(* a source-event data field (is_srcevt_data) is never written into the trial events array: whatever the user function
+   returned and whether or not the shape test against get_n_values() passes, no existing array is written, no other
+   table changes, and every field of the events table keeps its binding and the table its length *)
+Theorem C07_static_srcevt_leaves_events : forall t f r n s,
+  let s' := fst (calc_static t f r true n s) in
+  (forall b, (b < length (sb s))%nat -> nth_error (sb s') b = nth_error (sb s) b) /\
+  (length (sb s) <= length (sb s'))%nat /\
+  (forall u, u <> t -> nth_error (st s') u = nth_error (st s) u) /\
+  (forall x, nth_error (st s) t = Some x ->
+     exists x', nth_error (st s') t = Some x' /\ tlen x' = tlen x /\
+       (forall g, ~ In g [] -> lookup g (tf x') = lookup g (tf x)) /\
+       (forall g, lookup g (tf x) <> None -> lookup g (tf x') <> None)).
+Proof. exact static_srcevt_leaves_events. Qed.
+Print Assumptions C07_static_srcevt_leaves_events.
+
+(* any other static data field: only the binding of the field `f` of the events table changes; on success with a new
+   array the field holds exactly the returned values *)
+Theorem C07_static_field_frame : forall t f r n s,
+  (let s' := fst (calc_static t f r false n s) in
+   (forall b, (b < length (sb s))%nat -> nth_error (sb s') b = nth_error (sb s) b) /\
+   (length (sb s) <= length (sb s'))%nat /\
+   (forall u, u <> t -> nth_error (st s') u = nth_error (st s) u) /\
+   (forall x, nth_error (st s) t = Some x ->
+      exists x', nth_error (st s') t = Some x' /\ tlen x' = tlen x /\
+        (forall g, ~ In g [f] -> lookup g (tf x') = lookup g (tf x)) /\
+        (forall g, lookup g (tf x) <> None -> lookup g (tf x') <> None))) /\
+  forall v, r = RArr (FFresh v) -> snd (calc_static t f r false n s) = Ok tt ->
+            col (fst (calc_static t f r false n s)) t f = Some v.
+Proof. exact static_field_frame. Qed.
+Print Assumptions C07_static_field_frame.
+
+(* non-vacuity: on a 3-row table with 2 sources (n_values = 6) a source-event field of length 6 is accepted and leaves
+   the table as it is, one of length 3 raises ValueError, a non-array TypeError; an event field of length 3 is written,
+   one of length 4 raises ValueError, an aliasing field shares the array of `ra` *)
+Example C07_static_nonvacuous :
+  fst (static_obs ex_exp 21%nat (RArr (FFresh [1; 2; 3; 4; 5; 6])) true 6) = Ok tt /\
+  snd (static_obs ex_exp 21%nat (RArr (FFresh [1; 2; 3; 4; 5; 6])) true 6) = snd (static_obs ex_exp 21%nat RNotArray true 6) /\
+  fst (static_obs ex_exp 21%nat (RArr (FFresh [1; 2; 3])) true 6) = Err ValueError /\
+  fst (static_obs ex_exp 21%nat RNotArray false 6) = Err TypeError /\
+  fst (static_obs ex_exp 21%nat (RArr (FFresh [7; 8; 9])) false 6) = Ok tt /\
+  fst (static_obs ex_exp 21%nat (RArr (FFresh [7; 8; 9; 9])) false 6) = Err ValueError /\
+  fst (static_obs ex_exp 21%nat (RArr (FAlias F_RA)) false 6) = Ok tt.
+Proof. vm_compute. repeat split. Qed.
